@@ -26,7 +26,7 @@ from fractions import Fraction
 import vlib
 
 PROPERTY = "C11"
-LEAN_MODULES = ["TapkeeVerif.Props.C11"]
+LEAN_MODULES = ["TapkeeVerif.Props.C11", "TapkeeVerif.Props.C11Compose"]
 LEAN_EXES = ["model_c11"]
 REQUIRED_THEOREMS = [
     "TapkeeVerif.Landmarks.landmarks_distinct_and_counted",
@@ -43,6 +43,11 @@ REQUIRED_THEOREMS = [
     "TapkeeVerif.Landmarks.lmds_oob_iff",
     "TapkeeVerif.Landmarks.validated_inbounds",
     "TapkeeVerif.Landmarks.lmds_validated_not_oob",
+    "TapkeeVerif.LandmarkCompose.landmark_mds_end_to_end",
+    "TapkeeVerif.LandmarkCompose.ex_sel",
+    "TapkeeVerif.LandmarkCompose.ex_range",
+    "TapkeeVerif.LandmarkCompose.ex_lm",
+    "TapkeeVerif.LandmarkCompose.ex_isTopEig",
 ]
 
 # -O0: the four method classes under ASan+UBSan compile in ~35 s instead of ~70 s at -O1; matrices are <= 32 x 32
